@@ -297,7 +297,7 @@ package join
 @*/
 
 /*@ func join.ServicePodsWith
-  props C09 C20 C11
+  props C09 C20 C11 C08
   theory joins
   requires (and (not (= {srcController} vnil)) (not (= {dstController} vnil)) (not (= {filterFn} vnil)))
   ghost initSet : Bool := false
@@ -318,6 +318,9 @@ package join
   at call(NewMonitor) assert [monitors-the-source-controller-with-that-handler] (= $0 {srcController})
   at call(Close) assert [closes-only-the-clone-it-created] (= $recv {dst})
   at go(ServicePodsWith$3) set linked := true
+  at call(Refilter) assert [opt:the-join-is-refiltered-only-by-the-monitor-callbacks-never-before-the-source-is-synced] false
+  at call(ServicePodsWith$1) assert [opt:the-source-cache-is-read-only-from-monitor-callbacks-never-before-the-source-is-synced] false
+  at call(dyncall) assert [opt:the-source-cache-is-read-only-from-monitor-callbacks-never-before-the-source-is-synced] false
   at return assert [success-returns-the-clone-with-its-monitor-tied-to-it] (=> (= result1 vnil) (and (= result0 {dst}) linked (not (= result0 vnil))))
   at return assert [failure-returns-nothing] (=> (not (= result1 vnil)) (= result0 vnil))
   ensures (=> (= result1 vnil) (not (= result0 vnil)))
@@ -374,7 +377,7 @@ package join
 @*/
 
 /*@ func join.RCPodsWith
-  props C09 C20 C11
+  props C09 C20 C11 C08
   theory joins
   requires (and (not (= {srcController} vnil)) (not (= {dstController} vnil)) (not (= {filterFn} vnil)))
   ghost initSet : Bool := false
@@ -395,6 +398,9 @@ package join
   at call(NewMonitor) assert [monitors-the-source-controller-with-that-handler] (= $0 {srcController})
   at call(Close) assert [closes-only-the-clone-it-created] (= $recv {dst})
   at go(RCPodsWith$3) set linked := true
+  at call(Refilter) assert [opt:the-join-is-refiltered-only-by-the-monitor-callbacks-never-before-the-source-is-synced] false
+  at call(RCPodsWith$1) assert [opt:the-source-cache-is-read-only-from-monitor-callbacks-never-before-the-source-is-synced] false
+  at call(dyncall) assert [opt:the-source-cache-is-read-only-from-monitor-callbacks-never-before-the-source-is-synced] false
   at return assert [success-returns-the-clone-with-its-monitor-tied-to-it] (=> (= result1 vnil) (and (= result0 {dst}) linked (not (= result0 vnil))))
   at return assert [failure-returns-nothing] (=> (not (= result1 vnil)) (= result0 vnil))
   ensures (=> (= result1 vnil) (not (= result0 vnil)))
@@ -451,7 +457,7 @@ package join
 @*/
 
 /*@ func join.RSPodsWith
-  props C09 C20 C11
+  props C09 C20 C11 C08
   theory joins
   requires (and (not (= {srcController} vnil)) (not (= {dstController} vnil)) (not (= {filterFn} vnil)))
   ghost initSet : Bool := false
@@ -472,6 +478,9 @@ package join
   at call(NewMonitor) assert [monitors-the-source-controller-with-that-handler] (= $0 {srcController})
   at call(Close) assert [closes-only-the-clone-it-created] (= $recv {dst})
   at go(RSPodsWith$3) set linked := true
+  at call(Refilter) assert [opt:the-join-is-refiltered-only-by-the-monitor-callbacks-never-before-the-source-is-synced] false
+  at call(RSPodsWith$1) assert [opt:the-source-cache-is-read-only-from-monitor-callbacks-never-before-the-source-is-synced] false
+  at call(dyncall) assert [opt:the-source-cache-is-read-only-from-monitor-callbacks-never-before-the-source-is-synced] false
   at return assert [success-returns-the-clone-with-its-monitor-tied-to-it] (=> (= result1 vnil) (and (= result0 {dst}) linked (not (= result0 vnil))))
   at return assert [failure-returns-nothing] (=> (not (= result1 vnil)) (= result0 vnil))
   ensures (=> (= result1 vnil) (not (= result0 vnil)))
@@ -528,7 +537,7 @@ package join
 @*/
 
 /*@ func join.DeploymentPodsWith
-  props C09 C20 C11
+  props C09 C20 C11 C08
   theory joins
   requires (and (not (= {srcController} vnil)) (not (= {dstController} vnil)) (not (= {filterFn} vnil)))
   ghost initSet : Bool := false
@@ -549,6 +558,9 @@ package join
   at call(NewMonitor) assert [monitors-the-source-controller-with-that-handler] (= $0 {srcController})
   at call(Close) assert [closes-only-the-clone-it-created] (= $recv {dst})
   at go(DeploymentPodsWith$3) set linked := true
+  at call(Refilter) assert [opt:the-join-is-refiltered-only-by-the-monitor-callbacks-never-before-the-source-is-synced] false
+  at call(DeploymentPodsWith$1) assert [opt:the-source-cache-is-read-only-from-monitor-callbacks-never-before-the-source-is-synced] false
+  at call(dyncall) assert [opt:the-source-cache-is-read-only-from-monitor-callbacks-never-before-the-source-is-synced] false
   at return assert [success-returns-the-clone-with-its-monitor-tied-to-it] (=> (= result1 vnil) (and (= result0 {dst}) linked (not (= result0 vnil))))
   at return assert [failure-returns-nothing] (=> (not (= result1 vnil)) (= result0 vnil))
   ensures (=> (= result1 vnil) (not (= result0 vnil)))
@@ -605,7 +617,7 @@ package join
 @*/
 
 /*@ func join.DaemonSetPodsWith
-  props C09 C20 C11
+  props C09 C20 C11 C08
   theory joins
   requires (and (not (= {srcController} vnil)) (not (= {dstController} vnil)) (not (= {filterFn} vnil)))
   ghost initSet : Bool := false
@@ -626,6 +638,9 @@ package join
   at call(NewMonitor) assert [monitors-the-source-controller-with-that-handler] (= $0 {srcController})
   at call(Close) assert [closes-only-the-clone-it-created] (= $recv {dst})
   at go(DaemonSetPodsWith$3) set linked := true
+  at call(Refilter) assert [opt:the-join-is-refiltered-only-by-the-monitor-callbacks-never-before-the-source-is-synced] false
+  at call(DaemonSetPodsWith$1) assert [opt:the-source-cache-is-read-only-from-monitor-callbacks-never-before-the-source-is-synced] false
+  at call(dyncall) assert [opt:the-source-cache-is-read-only-from-monitor-callbacks-never-before-the-source-is-synced] false
   at return assert [success-returns-the-clone-with-its-monitor-tied-to-it] (=> (= result1 vnil) (and (= result0 {dst}) linked (not (= result0 vnil))))
   at return assert [failure-returns-nothing] (=> (not (= result1 vnil)) (= result0 vnil))
   ensures (=> (= result1 vnil) (not (= result0 vnil)))
@@ -682,7 +697,7 @@ package join
 @*/
 
 /*@ func join.StatefulSetPodsWith
-  props C09 C20 C11
+  props C09 C20 C11 C08
   theory joins
   requires (and (not (= {srcController} vnil)) (not (= {dstController} vnil)) (not (= {filterFn} vnil)))
   ghost initSet : Bool := false
@@ -703,6 +718,9 @@ package join
   at call(NewMonitor) assert [monitors-the-source-controller-with-that-handler] (= $0 {srcController})
   at call(Close) assert [closes-only-the-clone-it-created] (= $recv {dst})
   at go(StatefulSetPodsWith$3) set linked := true
+  at call(Refilter) assert [opt:the-join-is-refiltered-only-by-the-monitor-callbacks-never-before-the-source-is-synced] false
+  at call(StatefulSetPodsWith$1) assert [opt:the-source-cache-is-read-only-from-monitor-callbacks-never-before-the-source-is-synced] false
+  at call(dyncall) assert [opt:the-source-cache-is-read-only-from-monitor-callbacks-never-before-the-source-is-synced] false
   at return assert [success-returns-the-clone-with-its-monitor-tied-to-it] (=> (= result1 vnil) (and (= result0 {dst}) linked (not (= result0 vnil))))
   at return assert [failure-returns-nothing] (=> (not (= result1 vnil)) (= result0 vnil))
   ensures (=> (= result1 vnil) (not (= result0 vnil)))
@@ -759,7 +777,7 @@ package join
 @*/
 
 /*@ func join.JobPodsWith
-  props C09 C20 C11
+  props C09 C20 C11 C08
   theory joins
   requires (and (not (= {srcController} vnil)) (not (= {dstController} vnil)) (not (= {filterFn} vnil)))
   ghost initSet : Bool := false
@@ -780,6 +798,9 @@ package join
   at call(NewMonitor) assert [monitors-the-source-controller-with-that-handler] (= $0 {srcController})
   at call(Close) assert [closes-only-the-clone-it-created] (= $recv {dst})
   at go(JobPodsWith$3) set linked := true
+  at call(Refilter) assert [opt:the-join-is-refiltered-only-by-the-monitor-callbacks-never-before-the-source-is-synced] false
+  at call(JobPodsWith$1) assert [opt:the-source-cache-is-read-only-from-monitor-callbacks-never-before-the-source-is-synced] false
+  at call(dyncall) assert [opt:the-source-cache-is-read-only-from-monitor-callbacks-never-before-the-source-is-synced] false
   at return assert [success-returns-the-clone-with-its-monitor-tied-to-it] (=> (= result1 vnil) (and (= result0 {dst}) linked (not (= result0 vnil))))
   at return assert [failure-returns-nothing] (=> (not (= result1 vnil)) (= result0 vnil))
   ensures (=> (= result1 vnil) (not (= result0 vnil)))
@@ -836,7 +857,7 @@ package join
 @*/
 
 /*@ func join.IngressServicesWith
-  props C09 C20 C11
+  props C09 C20 C11 C08
   theory joins
   requires (and (not (= {srcController} vnil)) (not (= {dstController} vnil)) (not (= {filterFn} vnil)))
   ghost initSet : Bool := false
@@ -857,6 +878,9 @@ package join
   at call(NewMonitor) assert [monitors-the-source-controller-with-that-handler] (= $0 {srcController})
   at call(Close) assert [closes-only-the-clone-it-created] (= $recv {dst})
   at go(IngressServicesWith$3) set linked := true
+  at call(Refilter) assert [opt:the-join-is-refiltered-only-by-the-monitor-callbacks-never-before-the-source-is-synced] false
+  at call(IngressServicesWith$1) assert [opt:the-source-cache-is-read-only-from-monitor-callbacks-never-before-the-source-is-synced] false
+  at call(dyncall) assert [opt:the-source-cache-is-read-only-from-monitor-callbacks-never-before-the-source-is-synced] false
   at return assert [success-returns-the-clone-with-its-monitor-tied-to-it] (=> (= result1 vnil) (and (= result0 {dst}) linked (not (= result0 vnil))))
   at return assert [failure-returns-nothing] (=> (not (= result1 vnil)) (= result0 vnil))
   ensures (=> (= result1 vnil) (not (= result0 vnil)))
